@@ -926,12 +926,8 @@ impl ProtocolState {
             return;
         }
 
-        // zero out everyone
-        let operations : Vec<u64> = self.operations.keys().copied().collect();
-        for id in operations {
-            let operation = self.operations.get_mut(&id).unwrap();
-            operation.slow_start_ack_value = 0;
-        }
+        // operations marked by an earlier disconnection stay marked until they complete: a connection
+        // attempt that fails before its CONNACK has nothing pending and must not forget them
 
         // now mark all pending operations as part of slow start
         // anything that completes before we reconect won't matter because we compute the
